@@ -30,6 +30,13 @@ CLAIMS = {
             "run; on the real code every value a system writes is recomputed by TLC from what it declared to read (order-sensitive hash), and the world read "
             "back after each dispatch must equal the sequential fold over the plan computed in TLA+; crate built with and without `parallel`.",
             EXE + " (InvC05)", "DESIGN.md §5 C05"),
+    "C06": ("SysData.tla gives the composition rules (reads/writes concatenation, member-order fetch with unwinding, setup = composition of member "
+            "setups) for Read/Write/Option/Expect/unit/PhantomData, tuples of arity 1..26, nestings and derived structs; TLC enumerates shapes x presence "
+            "sets and emits reference values; a generator turns them into thousands of real Rust types (incl. every arity and derive flavour) that are "
+            "exercised on the real library (reads()/writes(), real borrow state of every cell while alive and after drop, panic kinds, setup, exec) and "
+            "every observation is validated by TLC (SysDataTrace) against the shape's semantics.",
+            "TLC model checking of MCSysData + generated type zoo replayed on the real library + SysDataTrace validation (InvC06decl, InvC06borrow, InvC06setup)",
+            "DESIGN.md §5 C06"),
     "C07": ("Batch = union: the trace spec computes a batch's access as controller data + everything inside (any depth) and evaluates C01/C02/C03/C04 on "
             "outer and inner dispatchers alike; inner dispatches only inside the batch's window (InvC07); Exec.tla with a batch explores all interleavings "
             "of outer systems with inner dispatches. KF1 (thread-local inside a batch) is a listed known finding.",
